@@ -146,28 +146,39 @@ section FwdConstraint
 open MjProof.FwdConstraint
 variable {φ α : Type}
 
+/-- The static `warmstart` is its body: with the warm start enabled `mj_constraintUpdate` leaves
+    `qfrc_constraint = J' efc_force` (PGS: both are zeroed when the zero force is better); the cold start
+    zeroes `efc_force` and does NOT write `qfrc_constraint` — whatever the other conditions evaluate to. -/
+theorem warmstart_refines (L : Leaves φ α) (e : Env) (s : St φ α) :
+    exec L e warmstartBody s = Prim.warmstart.eff L e s := by
+  obtain ⟨nr, isl, sol, ns, wm, zb, orc⟩ := e
+  cases wm <;> cases sol <;> cases zb <;>
+    simp [exec, run, step, warmstartBody, G.holds, Prim.eff, warmF, warmQ]
+
 /-- `efc_force` at the end of a call that starts with `f0` in `efc_force`: untouched when there are no
     rows (the array is empty), otherwise warm start → solver (islands or monolithic) → optional noslip. -/
 def finalForce (L : Leaves φ α) (e : Env) (f0 : φ) : φ :=
   if e.noRows then f0 else
-    let f1 := if e.islands then L.isl e.solver L.warm else L.mono e.solver L.warm
+    let f1 := if e.islands then L.isl e.solver (warmF L e) else L.mono e.solver (warmF L e)
     if e.noslip then L.noslip f1 else f1
 
 /-- Full specification of one call on the tracked arrays, for any content `s` at entry. -/
 theorem fwdConstraint_spec (L : Leaves φ α) (e : Env) (s : St φ α) (h : L.WF e) :
     ∃ s', exec L e mjFwdConstraint s = some s' ∧ s'.force = finalForce L e s.force ∧
       s'.qfrc = L.jtf s'.force := by
-  obtain ⟨nr, isl, sol, ns⟩ := e
+  obtain ⟨nr, isl, sol, ns, wm, zb, orc⟩ := e
   cases nr
   · cases isl
     · cases sol <;> cases ns <;>
         simp [exec, run, step, mjFwdConstraint, G.holds, Prim.eff, Arr.tracked, finalForce]
     · cases sol
       · cases ns <;> simp [exec, run, step, mjFwdConstraint, G.holds, Prim.eff, Arr.tracked, finalForce]
-      · obtain ⟨v, w, hv, hw, hs⟩ := island_roundtrip L _ h rfl L.warm (L.isl .cg L.warm)
+      · obtain ⟨hq, hz⟩ := warmQ_zero_outside L _ h rfl
+        obtain ⟨v, w, hv, hw, hs⟩ := island_roundtrip L _ h rfl _ hq hz (L.isl .cg (warmF L ⟨false, true, .cg, ns, wm, zb, orc⟩))
         cases ns <;>
           simp [exec, run, step, mjFwdConstraint, G.holds, Prim.eff, Arr.tracked, finalForce, hv, hw, hs]
-      · obtain ⟨v, w, hv, hw, hs⟩ := island_roundtrip L _ h rfl L.warm (L.isl .newton L.warm)
+      · obtain ⟨hq, hz⟩ := warmQ_zero_outside L _ h rfl
+        obtain ⟨v, w, hv, hw, hs⟩ := island_roundtrip L _ h rfl _ hq hz (L.isl .newton (warmF L ⟨false, true, .newton, ns, wm, zb, orc⟩))
         cases ns <;>
           simp [exec, run, step, mjFwdConstraint, G.holds, Prim.eff, Arr.tracked, finalForce, hv, hw, hs]
   · have he := h.empty rfl
@@ -212,10 +223,12 @@ theorem constraintUpdate_qfrc_eq_JTf (L : Leaves φ α) (e : Env) (s : St φ α)
 
 /-- the hypotheses are satisfiable with non-trivial data: nv = 3, one island over dofs 0 and 2,
     `J' f = (f, 0, 2 f)`; the island / CG run from stale content returns `J' f` of the final force. -/
-example : ∃ (L : Leaves Int Int), L.WF ⟨false, true, .cg, false⟩ ∧
-    (exec L ⟨false, true, .cg, false⟩ mjFwdConstraint ⟨[7, 7, 7], [9, 9], 5, 5⟩).map (·.qfrc) = some [4, 0, 8] := by
-  refine ⟨{ z := 0, nv := 3, map := [0, 2], jtf := fun f => [f, 0, 2 * f], warm := 1, mono := fun _ f => f,
-            isl := fun _ f => f + 3, noslip := id, upd := 0 }, ⟨by simp, by simp, ?_, by simp⟩, by decide⟩
+example : ∃ (L : Leaves Int Int), L.WF ⟨false, true, .cg, false, true, false, fun _ => false⟩ ∧
+    (exec L ⟨false, true, .cg, false, true, false, fun _ => false⟩ mjFwdConstraint ⟨[7, 7, 7], [9, 9], 5, 5⟩).map (·.qfrc)
+      = some [4, 0, 8] := by
+  refine ⟨{ z := 0, nv := 3, map := [0, 2], jtf := fun f => [f, 0, 2 * f], updW := 2, updS := 1, zeroF := 0,
+            mono := fun _ f => f, isl := fun _ f => f + 3, noslip := id, upd := 0 },
+          ⟨by simp, by simp, ?_, by simp⟩, by decide⟩
   intro _ f k hk hlt
   simp at hk hlt
   have : k = 1 := by omega
